@@ -320,6 +320,7 @@ Definition lkx_step_g (gd : lk_guard) (s : lkx_state) (o : lkx_op) : lkx_state *
   | LxUpdateFunder signer new =>
       if negb (lx_vesting s) then (s, LK_NOTVESTING) else
       if negb (signer =? lx_funder s)%N then (s, LK_UNAUTHORIZED) else
+      if (signer =? new)%N then (s, LK_INVALID) else     (* ValidateBasic: new funder = current funder *)
       (mklkx c true new, LK_OK)
   end.
 
